@@ -86,6 +86,10 @@ type Analyzer struct {
 	allFuncs        map[*ssa.Function]bool
 	live            map[*ssa.Function]*liveInfo
 	rootStack       []*rootSet
+	// ExtraRoots: terms whose facts clients want to query at return states (kept by GC).
+	ExtraRoots []Term
+	// OnInlined observes every return of an inlined repo function.
+	OnInlined func(fn *ssa.Function, args []Term, val Term, st *State)
 	// OnWrite observes binary.PutUintN writes (layout extraction of encoders).
 	OnWrite func(st *State, dst *Slice, width int64, val Term)
 }
@@ -139,7 +143,12 @@ func (a *Analyzer) structAtom(op string, aux int64, t types.Type, desc string, a
 	}
 	b.WriteByte(')')
 	if t != nil {
-		b.WriteString(t.String())
+		// value range only (named/alias types with the same range share atoms)
+		if isUnsigned(t) {
+			fmt.Fprintf(&b, "u%d", typeBits(t))
+		} else {
+			fmt.Fprintf(&b, "i%d", typeBits(t))
+		}
 	}
 	k := b.String()
 	if at, ok := a.atoms[k]; ok {
@@ -289,6 +298,8 @@ func (a *Analyzer) RunEntry(fn *ssa.Function, st *State, args []Term, bindings [
 	a.stack = nil
 	a.steps = 0
 	a.entryFn = fn
+	// entry arguments stay live so that clients can relate return states to the inputs
+	a.rootStack = []*rootSet{{extra: append(append([]Term(nil), args...), bindings...)}}
 	var rets []retState
 	func() {
 		defer func() {
@@ -1200,6 +1211,14 @@ func (a *Analyzer) join2(x, y *State, ex, ey Term) (*State, Term) {
 	for _, c := range Y.All() {
 		if !out.Cons.key[c.Key()] {
 			keep(c, X)
+		}
+	}
+	for k, v := range x.BoolFacts {
+		if w, ok := y.BoolFacts[k]; ok && w == v {
+			if out.BoolFacts == nil {
+				out.BoolFacts = map[int]bool{}
+			}
+			out.BoolFacts[k] = v
 		}
 	}
 	for k, v := range x.Dyn {
